@@ -28,11 +28,11 @@ struct SlabEngine;
 static SlabEngine *G;
 
 // Requests of 2^31 bytes and more ("huge"): C02/C03 quantify over all sizes, and 32-bit truncation of a length is the
-// realistic mistake there. Such mappings are served from a 40 GiB tail of reserved (PROT_NONE, never committed)
+// realistic mistake there. Such mappings are served from a 120 GiB tail of reserved (PROT_NONE, never committed)
 // address space directly behind the arena, so that offsets stay linear; the head of a region and the owner's fill windows
 // are made accessible eagerly, any other page of a mapped region on first touch (on_fault). Accesses there are outside
 // the race detector's shadow.
-static const uint64_t HUGE_MIN = 1ull << 30, TAIL_SIZE = 40ull << 30;
+static const uint64_t HUGE_MIN = 1ull << 30, TAIL_SIZE = 120ull << 30;
 static inline bool in_tail(const void *p) { uint64_t o = off(p); return o >= arena_size && o < arena_size + TAIL_SIZE; }
 
 static inline uint8_t patbyte(uint64_t pat, size_t i) { return (uint8_t)((pat >> ((i & 7) * 8)) ^ (i * 131) ^ (i >> 8)); }
@@ -114,7 +114,7 @@ struct SlabEngine : Engine {
 	size_t gen_size(Rng &rng, const PolicyInfo &p, int focus_cls, bool allow_large) {
 		// the property quantifies over request sizes from 0 up to several superblocks
 		size_t n = gen_size_raw(rng, p, focus_cls, allow_large);
-		size_t cap = class_size(p.num_buckets - 1) + 5 * p.sb_size;
+		size_t cap = class_size(p.num_buckets - 1) + 5 * std::min<size_t>(p.sb_size, 1 << 22); // (a geometry with gigabyte superblocks: "several superblocks" is taken as several MiB)
 		if (n > cap) n = n > (size_t)1 << 62 ? 0 : cap; // (wrapped negative -> 0)
 		return n;
 	}
@@ -128,8 +128,9 @@ struct SlabEngine : Engine {
 		if (!allow_large) return 1 + rng.below(maxs);
 		if (r < 65) return maxs + (int)rng.below(3) - 1;
 		if (r < 80) { size_t k = 1 + rng.below(6); return k * p.pagesize + (int)rng.below(3) - 1; }
-		if (r < 90) { size_t k = 1 + rng.below(3); return k * p.sb_size + (int)rng.below(3) - 1 - (rng.chance(1, 2) ? p.pagesize : 0); }
-		return maxs + 1 + rng.below(4 * p.sb_size);
+		size_t sbs = std::min<size_t>(p.sb_size, 1 << 22);
+		if (r < 90) { size_t k = 1 + rng.below(3); return k * sbs + (int)rng.below(3) - 1 - (rng.chance(1, 2) ? p.pagesize : 0); }
+		return maxs + 1 + rng.below(4 * sbs);
 	}
 
 	void generate(Rng &rng, Plan &p, const std::string &prof, int tier) override {
@@ -247,7 +248,7 @@ struct SlabEngine : Engine {
 					Op &o = p.ops[cand[hr.below(cand.size())]];
 					static const uint64_t bases[] = {1ull << 31, 1ull << 32, 1ull << 32, 1ull << 32, (1ull << 32) + (1ull << 31), 1ull << 33};
 					uint64_t b = bases[hr.below(6)]; int64_t d;
-					switch (hr.below(6)) { case 0: d = 0; break; case 1: d = -1; break; case 2: d = 1 + (int64_t)hr.below(200); break; case 3: d = -(int64_t)P.pagesize - (int64_t)hr.below(3); break; case 4: d = (int64_t)P.pagesize + (int64_t)hr.below(3) - 1; break; default: d = (int64_t)hr.below(3 * P.sb_size) - (int64_t)P.sb_size; break; }
+					switch (hr.below(6)) { case 0: d = 0; break; case 1: d = -1; break; case 2: d = 1 + (int64_t)hr.below(200); break; case 3: d = -(int64_t)P.pagesize - (int64_t)hr.below(3); break; case 4: d = (int64_t)P.pagesize + (int64_t)hr.below(3) - 1; break; default: d = (int64_t)hr.below(3 * std::min<size_t>(P.sb_size, 1 << 22)) - (int64_t)std::min<size_t>(P.sb_size, 1 << 22); break; }
 					o.a[1] = (int64_t)(b + (uint64_t)d);
 					if (o.mapfail && hr.chance(2, 3)) o.mapfail = 0;
 				}
@@ -300,8 +301,26 @@ struct SlabEngine : Engine {
 	// currently mapped tail region commits that page (fresh zero page, deterministic); anywhere else in the tail it is a
 	// stray access and stays a crash. More than 32 MiB per run of such pages ends the run without a verdict.
 	int tail_faults = 0;
+	std::vector<std::pair<uint64_t, uint64_t>> calib_regions; uint64_t calib_tail_top = 0;
+	void ensure_tail() {
+		static int tail_state = 0; // 1 reserved, -1 the address range behind the arena is not free: huge requests fail like an exhausted arena
+		if (!tail_state) {
+			void *w = arena + arena_size;
+			void *r = mmap(w, TAIL_SIZE, PROT_NONE, MAP_PRIVATE | MAP_ANONYMOUS | MAP_NORESERVE | MAP_FIXED_NOREPLACE, -1, 0);
+			tail_state = r == w ? 1 : -1;
+			if (r != w && r != MAP_FAILED) munmap(r, TAIL_SIZE);
+		}
+		tail_ok = tail_state == 1; aux_bytes = tail_ok ? TAIL_SIZE : 0;
+	}
+	void reset_tail() { if (tail_ok && tail_dirty) { mmap(arena + arena_size, TAIL_SIZE, PROT_NONE, MAP_PRIVATE | MAP_ANONYMOUS | MAP_NORESERVE | MAP_FIXED, -1, 0); tail_dirty = false; } }
 	int on_fault(void *addr) override {
-		if (!tail_ok || !in_tail(addr) || calibrating) return 0;
+		if (!tail_ok || !in_tail(addr)) return 0;
+		if (calibrating) { // (geometries whose superblocks are gigabytes: even the calibration pools live in the tail)
+			bool in = false; uint64_t o = off(addr); for (auto &cr : calib_regions) if (o >= cr.first && o < cr.first + cr.second) in = true;
+			if (!in || ++tail_faults > 65536) return 0;
+			tail_dirty = true;
+			return mprotect((void *)((uintptr_t)addr & ~(uintptr_t)4095), 4096, PROT_READ | PROT_WRITE) ? 0 : 1;
+		}
 		if (!find_region(off(addr))) return 0;
 		if (++tail_faults > 8192) return 2;
 		uintptr_t a = (uintptr_t)addr & ~(uintptr_t)4095;
@@ -322,6 +341,13 @@ struct SlabEngine : Engine {
 		if (calibrating) {
 			calib_maps++;
 			size_t a = align ? align : pi.pagesize;
+			if (len >= HUGE_MIN) { // reserved address space, committed on first touch (on_fault)
+				ensure_tail(); if (!tail_ok) return 0;
+				uint64_t al = std::min<uint64_t>(a, 1 << 20), b = (calib_tail_top + al - 1) & ~(al - 1);
+				if (b + len > arena_size + TAIL_SIZE - (1 << 20)) return 0;
+				calib_tail_top = b + len + (1 << 16); calib_regions.push_back({b, len});
+				return (uintptr_t)(arena + b);
+			}
 			calib_top = (calib_top + a - 1) & ~(uint64_t)(a - 1);
 			uint64_t b = calib_top; calib_top += len;
 			if (calib_top > policy_top) return 0;
@@ -355,7 +381,7 @@ struct SlabEngine : Engine {
 		if (len >= HUGE_MIN) {
 			// reserved address space only: the head (frame header, first pages of the block) is made accessible and filled
 			uint64_t cand = (tail_top + a - 1) & ~(uint64_t)(a - 1);
-			if (!align) { cand = ((tail_top + pi.sb_size - 1) & ~(uint64_t)(pi.sb_size - 1)) + want_res; }
+			if (!align) { uint64_t al = std::min<uint64_t>(pi.sb_size, 1 << 20); cand = ((tail_top + al - 1) & ~(al - 1)) + want_res % ((uint64_t)16 << 20); } // (the pool aligns inside the region itself)
 			if (!tail_ok || cand + len > arena_size + TAIL_SIZE - (1 << 20)) { probe(P_arena_exhausted); c.failed_any = true; return 0; }
 			probe(P_huge_maps);
 			if (!align && want_res) { probe(P_unaligned_slack); count_fault(FK_PLACEMENT); }
@@ -365,7 +391,7 @@ struct SlabEngine : Engine {
 			c.maps_ok++; c.mapped_bases.push_back(cand);
 			char *p = arena + cand;
 			// (a copying realloc into the new block copies the old block's whole capacity: at most the generator's size cap, rounded)
-			size_t head = std::min<uint64_t>(len, 8 * (uint64_t)pi.sb_size + class_size(pi.num_buckets - 1) + 8 * pg + (1 << 16));
+			size_t head = std::min<uint64_t>(len, 8 * std::min<uint64_t>(pi.sb_size, 1 << 20) + class_size(pi.num_buckets - 1) + 8 * pg + (1 << 16));
 			ensure_rw(p, head);
 			uint64_t g = fill_rng().next();
 			uint64_t fm = c.place ? splitmix(c.place, 999 + (uint64_t)j) & 7 : 2;
@@ -462,6 +488,8 @@ struct SlabEngine : Engine {
 			uintptr_t a = (uintptr_t)(arena + copy.base) & ~(uintptr_t)4095, e = ((uintptr_t)(arena + copy.base) + copy.len + 4095) & ~(uintptr_t)4095;
 			mmap((void *)a, e - a, PROT_NONE, MAP_PRIVATE | MAP_ANONYMOUS | MAP_NORESERVE | MAP_FIXED, -1, 0);
 			tail_sub(copy.base, copy.base + copy.len);
+			bool top = true; for (auto &x : regions) if (x.base > copy.base) top = false;
+			if (top) tail_top = std::max<uint64_t>(arena_size + (1 << 20), (copy.base & ~4095ull)); // the highest region went away: its address space is handed out again
 		}
 	}
 
@@ -534,15 +562,7 @@ struct SlabEngine : Engine {
 		if (!pshadow) { pshadow = (uint8_t *)mmap(nullptr, arena_size, PROT_READ | PROT_WRITE, MAP_PRIVATE | MAP_ANONYMOUS | MAP_NORESERVE, -1, 0); }
 		policy_base = (size_t)16 << 20; policy_top = arena_size - (1 << 20);
 		{
-			static int tail_state = 0; // 1 reserved, -1 the address range behind the arena is not free: huge requests fail like an exhausted arena
-			if (!tail_state) {
-				void *w = arena + arena_size;
-				void *r = mmap(w, TAIL_SIZE, PROT_NONE, MAP_PRIVATE | MAP_ANONYMOUS | MAP_NORESERVE | MAP_FIXED_NOREPLACE, -1, 0);
-				tail_state = r == w ? 1 : -1;
-				if (r != w && r != MAP_FAILED) munmap(r, TAIL_SIZE);
-			}
-			tail_ok = tail_state == 1; aux_bytes = tail_ok ? TAIL_SIZE : 0;
-			if (tail_ok && tail_dirty) { mmap(arena + arena_size, TAIL_SIZE, PROT_NONE, MAP_PRIVATE | MAP_ANONYMOUS | MAP_NORESERVE | MAP_FIXED, -1, 0); tail_dirty = false; }
+			ensure_tail(); reset_tail();
 			tail_top = arena_size + (1 << 20); tail_unpoisoned.clear(); tail_faults = 0;
 		}
 		regions.clear(); unmapped_hist.clear(); live_by_addr.clear(); map_sites.clear();
@@ -571,7 +591,7 @@ struct SlabEngine : Engine {
 		static char poolmem[1 << 16] __attribute__((aligned(64)));
 		// 1. discover the classes: a request is "small" if freeing its block does not give memory back to the policy
 		std::set<uint64_t> classes; uint64_t thr = 0;
-		calibrating = true; calib_top = policy_base; calib_maps = 0; calib_unmaps = 0;
+		calibrating = true; calib_top = policy_base; calib_maps = 0; calib_unmaps = 0; calib_tail_top = arena_size + (1 << 20); calib_regions.clear(); tail_faults = 0;
 		a->construct(pc, poolmem);
 		for (size_t n = 1; n <= pi.slabsize; n = n < 8 ? 8 : (n & (n - 1)) ? (n - 1) * 2 : n + 1) { // 1, 8, 9, 16, 17, 32, 33, ...
 			void *p = a->allocate(pc, poolmem, n); if (!p) break;
@@ -584,7 +604,8 @@ struct SlabEngine : Engine {
 		max_small_cache[pc] = thr;
 		// 2. per class: blocks per slab (allocate until the second map) and the page delta of one slab
 		for (uint64_t n : classes) {
-			calibrating = true; calib_top = policy_base; calib_maps = 0;
+			calibrating = true; calib_top = policy_base; calib_maps = 0; calib_tail_top = arena_size + (1 << 20); calib_regions.clear(); tail_faults = 0;
+			if (tail_dirty) reset_tail();
 			a->construct(pc, poolmem);
 			int64_t cnt = 0;
 			int64_t pages0 = (int64_t)a->used_pages(pc, poolmem);
